@@ -56,6 +56,242 @@ var expose = map[string]map[string][]string{
 	},
 }
 
+// guarded lists shared data which must only be touched while a lock of the same object is held:
+// package dir -> type name -> field -> lock field. Before every statement which mentions such a field,
+// `vsched.Touch(&x.<lock>, "Type.field", write, "file:line")` is inserted; under the scheduler the shim
+// records a violation when the running goroutine does not hold the lock in the required mode.
+// Functions in guardExempt build the object before it is shared.
+var guarded = map[string]map[string]map[string]string{
+	"server": {
+		"Session":      {"subs": "subsLock"},
+		"SessionStore": {"sessCache": "lock", "lru": "lock"},
+	},
+}
+var guardExempt = map[string]bool{"(*SessionStore).NewSession": true, "NewSessionStore": true}
+
+// atomicOnly lists flags which may only be passed by address to a sync/atomic function; any other
+// mention gets a `vsched.PlainAccess("Type.field", "file:line")` in front of its statement.
+var atomicOnly = map[string]map[string]map[string]bool{
+	"server": {"Session": {"terminating": true}, "Topic": {"status": true}},
+}
+
+// atomicArgs collects the selector expressions which appear as &x.f arguments of atomic.* calls.
+func atomicArgs(f *ast.File) map[ast.Expr]bool {
+	ok := map[ast.Expr]bool{}
+	ast.Inspect(f, func(n ast.Node) bool {
+		c, isCall := n.(*ast.CallExpr)
+		if !isCall {
+			return true
+		}
+		if fs, isSel := c.Fun.(*ast.SelectorExpr); isSel {
+			if id, isID := fs.X.(*ast.Ident); isID && id.Name == "atomic" {
+				for _, a := range c.Args {
+					if u, isU := a.(*ast.UnaryExpr); isU && u.Op == token.AND {
+						ok[u.X] = true
+					}
+				}
+			}
+		}
+		return true
+	})
+	return ok
+}
+
+type guardUse struct {
+	x     ast.Expr
+	what  string
+	lock  string
+	write bool
+	pos   token.Pos
+}
+
+func (r *rewriter) guardSel(e ast.Expr, table map[string]map[string]string) (*guardUse, bool) {
+	sel, ok := e.(*ast.SelectorExpr)
+	if !ok {
+		return nil, false
+	}
+	t := r.info.TypeOf(sel.X)
+	if t == nil {
+		return nil, false
+	}
+	if p, ok := t.(*types.Pointer); ok {
+		t = p.Elem()
+	}
+	n, ok := t.(*types.Named)
+	if !ok {
+		return nil, false
+	}
+	fields := table[n.Obj().Name()]
+	if fields == nil {
+		return nil, false
+	}
+	lock, ok := fields[sel.Sel.Name]
+	if !ok {
+		return nil, false
+	}
+	return &guardUse{x: sel.X, what: n.Obj().Name() + "." + sel.Sel.Name, lock: lock, pos: sel.Pos()}, true
+}
+
+// guardedUses lists the guarded fields mentioned directly by st (not inside nested statement lists
+// or function literals).
+func (r *rewriter) guardedUses(st ast.Stmt, table map[string]map[string]string) []*guardUse {
+	var out []*guardUse
+	writes := map[ast.Expr]bool{}
+	markWrite := func(e ast.Expr) {
+		ast.Inspect(e, func(n ast.Node) bool {
+			if x, ok := n.(ast.Expr); ok {
+				writes[x] = true
+			}
+			return true
+		})
+	}
+	switch s := st.(type) {
+	case *ast.AssignStmt:
+		for _, l := range s.Lhs {
+			markWrite(l)
+		}
+	case *ast.IncDecStmt:
+		markWrite(s.X)
+	case *ast.ExprStmt:
+		if c, ok := s.X.(*ast.CallExpr); ok {
+			if id, ok := c.Fun.(*ast.Ident); ok && id.Name == "delete" && len(c.Args) > 0 {
+				markWrite(c.Args[0])
+			}
+		}
+	}
+	first := true
+	ast.Inspect(st, func(n ast.Node) bool {
+		if first {
+			first = false
+			if _, ok := n.(*ast.BlockStmt); ok {
+				return false // a bare block: its statements are handled as a list of their own
+			}
+			return true
+		}
+		switch x := n.(type) {
+		case *ast.BlockStmt, *ast.CaseClause, *ast.CommClause, *ast.FuncLit:
+			return false
+		case ast.Expr:
+			if u, ok := r.guardSel(x, table); ok {
+				u.write = writes[x]
+				out = append(out, u)
+			}
+			if r.atomicTable != nil && !r.atomicOK[x] {
+				if u, ok := r.guardSelBool(x, r.atomicTable); ok {
+					u.lock = "" // marks a plain access to an atomic-only flag
+					out = append(out, u)
+				}
+			}
+		}
+		return true
+	})
+	return out
+}
+
+func (r *rewriter) guardSelBool(e ast.Expr, table map[string]map[string]bool) (*guardUse, bool) {
+	t2 := map[string]map[string]string{}
+	for tn, fs := range table {
+		t2[tn] = map[string]string{}
+		for f := range fs {
+			t2[tn][f] = "-"
+		}
+	}
+	return r.guardSel(e, t2)
+}
+
+func (r *rewriter) guardList(list []ast.Stmt, table map[string]map[string]string) []ast.Stmt {
+	var out []ast.Stmt
+	for _, st := range list {
+		seen := map[string]bool{}
+		for _, u := range r.guardedUses(st, table) {
+			k := fmt.Sprint(u.what, u.write)
+			if seen[k] {
+				continue
+			}
+			seen[k] = true
+			p := r.fset.Position(u.pos)
+			if u.lock == "" {
+				out = append(out, &ast.ExprStmt{X: r.call("PlainAccess",
+					&ast.BasicLit{Kind: token.STRING, Value: strconv.Quote(u.what)},
+					&ast.BasicLit{Kind: token.STRING, Value: strconv.Quote(fmt.Sprintf("%s:%d", filepath.Base(p.Filename), p.Line))})})
+				continue
+			}
+			w := "false"
+			if u.write {
+				w = "true"
+			}
+			out = append(out, &ast.ExprStmt{X: r.call("Touch",
+				&ast.UnaryExpr{Op: token.AND, X: &ast.SelectorExpr{X: u.x, Sel: ast.NewIdent(u.lock)}},
+				&ast.BasicLit{Kind: token.STRING, Value: strconv.Quote(u.what)},
+				ast.NewIdent(w),
+				&ast.BasicLit{Kind: token.STRING, Value: strconv.Quote(fmt.Sprintf("%s:%d", filepath.Base(p.Filename), p.Line))})})
+		}
+		r.guardNested(st, table)
+		out = append(out, st)
+	}
+	return out
+}
+
+func (r *rewriter) guardNested(st ast.Stmt, table map[string]map[string]string) {
+	switch s := st.(type) {
+	case *ast.BlockStmt:
+		s.List = r.guardList(s.List, table)
+	case *ast.IfStmt:
+		r.guardNested(s.Body, table)
+		if s.Else != nil {
+			r.guardNested(s.Else, table)
+		}
+	case *ast.ForStmt:
+		r.guardNested(s.Body, table)
+	case *ast.RangeStmt:
+		r.guardNested(s.Body, table)
+	case *ast.SwitchStmt:
+		r.guardNested(s.Body, table)
+	case *ast.TypeSwitchStmt:
+		r.guardNested(s.Body, table)
+	case *ast.SelectStmt:
+		r.guardNested(s.Body, table)
+	case *ast.CaseClause:
+		s.Body = r.guardList(s.Body, table)
+	case *ast.CommClause:
+		s.Body = r.guardList(s.Body, table)
+	case *ast.LabeledStmt:
+		r.guardNested(s.Stmt, table)
+	}
+	if b, ok := st.(*ast.BlockStmt); ok {
+		// switch / select bodies hold clauses, which guardList passed through unchanged: descend
+		for _, c := range b.List {
+			switch c.(type) {
+			case *ast.CaseClause, *ast.CommClause:
+				r.guardNested(c, table)
+			}
+		}
+	}
+}
+
+// guardPass inserts the Touch calls into every function body of the file.
+func (r *rewriter) guardPass(f *ast.File, table map[string]map[string]string) {
+	if table == nil {
+		return
+	}
+	r.atomicOK = atomicArgs(f)
+	ast.Inspect(f, func(n ast.Node) bool {
+		switch x := n.(type) {
+		case *ast.FuncDecl:
+			if x.Body == nil {
+				return false
+			}
+			if key, _ := funcKey(x); guardExempt[key] {
+				return false
+			}
+			x.Body.List = r.guardList(x.Body.List, table)
+		case *ast.FuncLit:
+			x.Body.List = r.guardList(x.Body.List, table)
+		}
+		return true
+	})
+}
+
 func funcKey(fn *ast.FuncDecl) (key, recv string) {
 	key = fn.Name.Name
 	if fn.Recv != nil && len(fn.Recv.List) == 1 {
@@ -210,6 +446,8 @@ type rewriter struct {
 	skip    map[ast.Node]bool
 	kind    map[ast.Node]string // decisions taken in pre-order from type info
 	file    string
+	atomicOK    map[ast.Expr]bool
+	atomicTable map[string]map[string]bool
 }
 
 func (r *rewriter) sel(name string) ast.Expr {
@@ -510,6 +748,8 @@ func instrAll(repo, dir, out string, mapping map[string]string) error {
 		}
 		r := &rewriter{fset: p.Fset, info: p.TypesInfo, skip: map[ast.Node]bool{}, kind: map[ast.Node]string{}, file: path}
 		swapImports(f, swapsAll)
+		r.atomicTable = atomicOnly[dir]
+		r.guardPass(f, guarded[dir])
 		astutil.Apply(f, r.pre, r.post)
 		r.exposeLocals(f, expose[dir], exposed)
 		if r.used {
